@@ -132,7 +132,8 @@ def standard(tier, snapshots_cost=1.0):
              equal-rank profiles Q(3,<=4) for meek/warren"""
     D = configs.DEFAULTS
     menus = configs.wigm_menu() + configs.meek_menu()
-    ZB = [{'rule': 'wigm', 'defeat_batch': 'zero'}, {'rule': 'wigm', 'defeat_batch': 'zero', 'arithmetic': 'fixed', 'precision': 3}]
+    ZB = [{'rule': 'wigm', 'defeat_batch': 'zero'}, {'rule': 'wigm', 'defeat_batch': 'zero', 'arithmetic': 'fixed', 'precision': 3},
+          {'rule': 'wigm', 'arithmetic': 'fixed', 'precision': 4, 'display': 0}, {'rule': 'wigm', 'arithmetic': 'guarded', 'precision': 6, 'guard': 3, 'display': 0}]
     yield from seats_ties(2, spaces.U(2, 0, 8), cfgs=D)
     yield from seats_ties(3, spaces.U(3, 0, 4), cfgs=D)
     yield from seats_ties(3, spaces.U(3, 0, 4), ties='id', cfgs=menus if tier == 'thorough' else menus[::2])
